@@ -286,6 +286,11 @@ struct Exporter {
 
   void children(const Stmt *S, int curFile) {
     J.attributeArray("ch", [&] {
+      // a default member initialiser (`T m_{...};` used by a constructor that does not mention m_) has no child in clang's tree:
+      // export the initialiser expression so that rules see what the member is bound to
+      if (auto *DI = dyn_cast<CXXDefaultInitExpr>(S)) {
+        if (const Expr *E = DI->getExpr()) stmt(E, curFile);
+      }
       for (const Stmt *Ch : S->children()) stmt(Ch, curFile);
     });
   }
